@@ -883,6 +883,18 @@ fn exec_split(h: &str) -> String {
     format!("ns={} local={}", hex(&ns), hex(local))
 }
 
+/// `rd <hexdoc>`: the REAL parser on a document (the real serialiser's bytes, verbatim or with
+/// numeric character references put in by the generator); the model side runs its reader on the
+/// same bytes.  No oracle here: this ties the model reader to rio_xml / quick-xml directly.
+fn exec_rd(h: &str) -> String {
+    let Some(doc) = unhex(h) else { return "bad-hex".into() };
+    match catch(std::panic::AssertUnwindSafe(|| parse(&doc))) {
+        Ok(Ok(pg)) => format!("parse=ok g={}", render_graph(&pg)),
+        Ok(Err(_)) => "parse=err g=err".into(),
+        Err(m) => format!("parse=panic g=panic pmsg={}", hex(&m)),
+    }
+}
+
 pub fn exec(line: &str) -> String {
     let f: Vec<&str> = line.split_whitespace().collect();
     match f.as_slice() {
@@ -890,6 +902,7 @@ pub fn exec(line: &str) -> String {
         ["split", h] => exec_split(h),
         ["sink", rest @ ..] => exec_sink(rest),
         ["src", rest @ ..] => exec_src(rest),
+        ["rd", h] => exec_rd(h),
         _ => "bad-op".into(),
     }
 }
@@ -1295,6 +1308,170 @@ fn emit_sink(ctx: &mut GenCtx, indent: usize, g: &[Tr]) {
     emit_op(ctx, &format!("sink {} {}", indent, lim), g);
 }
 
+fn char_ref(ctx: &mut GenCtx, c: char) -> String {
+    let n = c as u32;
+    match ctx.rng.below(6) {
+        0 => format!("&#{};", n),
+        1 => format!("&#x{:x};", n),
+        2 => format!("&#x{:X};", n),
+        3 => format!("&#{:05};", n),
+        4 => format!("&#x{:06x};", n),
+        _ => format!("&#x{:X};", n).to_lowercase(),
+    }
+}
+
+const BAD_REFS: &[&str] = &[
+    "&#0;", "&#x0;", "&#xD800;", "&#xDFFF;", "&#x110000;", "&#;", "&#x;", "&#xZ;", "&#+65;", "&#-65;", "&#65", "&#X41;", "&foo;", "&", "&;", "&#65 ;", "&# 65;",
+    "&#99999999999;", "&#xFFFFFFFFF;", "&#1_0;", "&LT;", "&lt", "&#x4g;", "&#６５;",
+];
+/// accepted by quick-xml although not XML `Char`s / or unusual but fine
+const ODD_REFS: &[&str] = &["&#1;", "&#x8;", "&#xFFFE;", "&#xFFFF;", "&#x10FFFF;", "&#xE000;", "&#xD7FF;", "&#x20;", "&#9;", "&#10;", "&#13;", "&#x85;", "&#x2028;", "&#38;", "&#60;", "&#x26;#60;"];
+
+/// `doc` cut into markup (`<...>`) and character data; `<` and `>` never occur raw inside either
+/// in the serialiser's output
+fn segments(doc: &str) -> Vec<(bool, String)> {
+    let mut out: Vec<(bool, String)> = vec![];
+    let mut cur = String::new();
+    for c in doc.chars() {
+        match c {
+            '<' => {
+                if !cur.is_empty() {
+                    out.push((false, std::mem::take(&mut cur)));
+                }
+                cur.push(c);
+            }
+            '>' => {
+                cur.push(c);
+                out.push((true, std::mem::take(&mut cur)));
+            }
+            _ => cur.push(c),
+        }
+    }
+    if !cur.is_empty() {
+        out.push((false, cur));
+    }
+    out
+}
+
+/// rewrite `s` (character data or one attribute value): predefined entities and some characters
+/// become numeric character references denoting the SAME character
+fn with_refs(ctx: &mut GenCtx, s: &str, ws_chance: usize, changed: &mut bool) -> String {
+    let mut v = String::new();
+    let mut rest = s;
+    'outer: while let Some(c) = rest.chars().next() {
+        for (ent, ch) in [("&lt;", '<'), ("&gt;", '>'), ("&amp;", '&'), ("&quot;", '"'), ("&apos;", '\'')] {
+            if rest.starts_with(ent) {
+                if ctx.rng.chance(1, 2) {
+                    v += &char_ref(ctx, ch);
+                    *changed = true;
+                    ctx.stats.bump("rd.ref_for_entity");
+                } else {
+                    v += ent;
+                }
+                rest = &rest[ent.len()..];
+                continue 'outer;
+            }
+        }
+        let pick = match c {
+            '\r' | '\t' => ctx.rng.chance(1, 2),
+            '\n' | ' ' => ws_chance > 0 && ctx.rng.chance(1, ws_chance),
+            c if !c.is_ascii() => ctx.rng.chance(1, 4),
+            c if c.is_ascii_alphanumeric() => ctx.rng.chance(1, 40),
+            _ => false,
+        };
+        if pick {
+            v += &char_ref(ctx, c);
+            *changed = true;
+            ctx.stats.bump(if c == '\r' { "rd.ref_for_cr" } else if c.is_ascii() { "rd.ref_for_ascii" } else { "rd.ref_for_non_ascii" });
+        } else {
+            v.push(c);
+        }
+        rest = &rest[c.len_utf8()..];
+    }
+    v
+}
+
+/// the real serialiser's bytes for `g`, verbatim and with numeric character references put in —
+/// only where the model reader claims to mirror rio_xml / quick-xml: in character data and inside
+/// attribute values (references inside names or between attributes are malformed XML, on which
+/// the real parser's behaviour belongs to C08)
+fn emit_rd(ctx: &mut GenCtx, indent: usize, g: &[Tr]) {
+    if !in_scope(g) {
+        return;
+    }
+    let Ok(doc) = serialize(indent, g) else { return };
+    ctx.emit(&format!("rd {}", hex(&doc)));
+    ctx.stats.bump("rd.verbatim");
+    let segs = segments(&doc);
+    // (1) same characters, written as references
+    let mut changed = false;
+    let mut v = String::new();
+    for (markup, s) in &segs {
+        if *markup {
+            if s.starts_with("<?") {
+                v += s;
+                continue;
+            }
+            // attribute values only
+            for (k, part) in s.split('"').enumerate() {
+                if k > 0 {
+                    v.push('"');
+                }
+                if k % 2 == 1 {
+                    v += &with_refs(ctx, part, 0, &mut changed);
+                } else {
+                    v += part;
+                }
+            }
+        } else if s.chars().all(|c| matches!(c, ' ' | '\t' | '\n' | '\r')) {
+            // indentation or a whitespace-only literal: rarely (the raw text is then no longer
+            // whitespace-only: an error between elements, a kept literal inside a property)
+            if ctx.rng.chance(1, 25) {
+                ctx.stats.bump("rd.ref_in_whitespace_only_text");
+                v += &with_refs(ctx, s, 2, &mut changed);
+            } else {
+                v += s;
+            }
+        } else {
+            v += &with_refs(ctx, s, 6, &mut changed);
+        }
+    }
+    if changed {
+        ctx.emit(&format!("rd {}", hex(&v)));
+        ctx.stats.bump("rd.with_refs");
+    }
+    // (2) one odd or malformed reference inside the character data of an element
+    let texts: Vec<usize> = (0..segs.len()).filter(|&i| !segs[i].0 && i > 0 && i + 1 < segs.len() && !segs[i - 1].1.starts_with("</") && !segs[i - 1].1.starts_with("<rdf:") && segs[i + 1].1.starts_with("</")).collect();
+    if !texts.is_empty() {
+        let at = *ctx.rng.pick(&texts);
+        let (pool, what) = if ctx.rng.chance(1, 2) { (BAD_REFS, "rd.malformed_ref") } else { (ODD_REFS, "rd.odd_ref") };
+        let r = pk(ctx, pool);
+        let mut w = String::new();
+        for (i, (_, s)) in segs.iter().enumerate() {
+            if i == at {
+                let chars: Vec<char> = s.chars().collect();
+                // never inside an existing entity
+                let cut = match ctx.rng.below(3) {
+                    0 => 0,
+                    1 => chars.len(),
+                    _ => {
+                        let k = ctx.rng.below(chars.len() + 1);
+                        let head: String = chars[..k].iter().collect();
+                        if head.rfind('&').is_some_and(|a| !head[a..].contains(';')) { 0 } else { k }
+                    }
+                };
+                w.extend(chars[..cut].iter());
+                w += r;
+                w.extend(chars[cut..].iter());
+            } else {
+                w += s;
+            }
+        }
+        ctx.emit(&format!("rd {}", hex(&w)));
+        ctx.stats.bump(what);
+    }
+}
+
 fn emit_src(ctx: &mut GenCtx, indent: usize, g: &[Tr]) {
     let k = ctx.rng.range(0, g.len() + 1);
     ctx.stats.bump(if k == 0 { "src.fails_first" } else if k < g.len() { "src.fails_midway" } else if k == g.len() { "src.fails_never_exact" } else { "src.fails_never" });
@@ -1461,6 +1638,9 @@ pub fn generate(ctx: &mut GenCtx) {
         }
         if ctx.rng.chance(1, 8) {
             emit_src(ctx, indent, &g);
+        }
+        if ctx.rng.chance(1, 3) {
+            emit_rd(ctx, indent, &g);
         }
     }
 }
